@@ -6,9 +6,10 @@
    start marker, F26 events after loopEnd in the marker's row) are reported in `known`, everything
    else in `bad`. *)
 EXTENDS SeqTrace
-CONSTANTS MaxLen, TwoTracks
+CONSTANTS MaxLen, TwoTracks, SeekMode
 
-Div == 500000     \* one tick = 1 us at the default tempo
+\* one tick = 1 us at the default tempo; 100 us in seek mode, where the 11 us look-ahead of a seek must not swallow the song
+Div == IF SeekMode THEN 5000 ELSE 500000
 Evs == << [k |-> "on", ch |-> 0, n |-> 60, v |-> 1], [k |-> "off", ch |-> 0, n |-> 60, v |-> 0], [k |-> "cc", ch |-> 0, n |-> 7, v |-> 5],
           [k |-> "loopstart"], [k |-> "loopend"], [k |-> "tempo", us |-> 1000000] >>
 Evs2 == << [k |-> "on", ch |-> 1, n |-> 50, v |-> 2], [k |-> "off", ch |-> 1, n |-> 50, v |-> 0], [k |-> "cc", ch |-> 1, n |-> 10, v |-> 9] >>
@@ -31,11 +32,33 @@ Judge(sg, c) ==
       li == LoopInfo(sg)
       isKnown(x) == x = "delivery-count@loopend-row" \/ (x = "loopstart-hook-count" /\ (~li.hasS \/ ~li.valid))
   IN [bad |-> { x \in f : ~isKnown(x) }, known |-> { x \in f : isKnown(x) }]
+(* seek mode (C08): every song x looping on/off x every target at an event time, 5 us after it (inside the look-ahead of
+   the seek), in the gap behind it, at 0, at the last event and beyond the end: the model's seek is judged by the seek
+   monitors (position, delivered prefix without note-ons), and with looping off the playback that follows by the suffix
+   monitor *)
+Targets(sg) == {0, sg.len + 1} \cup UNION { {sg.its[i].t, sg.its[i].t + 5, sg.its[i].t + 50} : i \in DOMAIN sg.its }
+JudgeSeek(sg, c, tgt) ==
+  LET c1 == [c EXCEPT !.enabled = [i \in DOMAIN sg.tracks |-> TRUE]]
+      m  == SeekModel(sg, c.loopEn, c.loopN, tgt, 11)
+      ev == [e |-> "Seek", us |-> tgt, tell |-> m.tell, log |-> m.log]
+      pl == PlayAfterSeekModel(sg, c.loopEn, c.loopN, tgt, 11)
+      f  == SeekCoreFails(ev, sg, c1, 0) \cup
+            (IF ~c.loopEn /\ pl.trunc = 0 /\ tgt <= sg.len THEN PlayAfterSeekFails(pl, sg, c1, m.tell) ELSE {})
+  IN [bad |-> f, known |-> {}]
+VARIABLE target
+MCInitSeek == /\ song \in { MkSong([div |-> s.div, fmt |-> s.fmt, tracks |-> s.tracks]) : s \in Songs }
+              /\ cfg \in { [Cfg0 EXCEPT !.loopEn = en, !.loopN = 2, !.hooks = TRUE] : en \in BOOLEAN }
+              /\ target \in Targets(song)
+              /\ l = 1 /\ pos = Pos0 /\ fails = <<>> /\ cnt = Cnt0 /\ exec = 0 /\ drift = <<>>
+              /\ LET j == JudgeSeek(song, cfg, target) IN bad = j.bad /\ known = j.known
+MCSeekSpec == MCInitSeek /\ [][UNCHANGED <<mvars, target>>]_<<mvars, target>>
+
 MCInit == /\ song \in { MkSong([div |-> s.div, fmt |-> s.fmt, tracks |-> s.tracks]) : s \in Songs }
           /\ cfg \in Cfgs
-          /\ l = 1 /\ pos = [t |-> 0, moved |-> FALSE] /\ fails = <<>> /\ cnt = Cnt0 /\ exec = 0 /\ drift = <<>>
+          /\ l = 1 /\ pos = Pos0 /\ fails = <<>> /\ cnt = Cnt0 /\ exec = 0 /\ drift = <<>>
           /\ LET j == Judge(song, cfg) IN bad = j.bad /\ known = j.known
-MCNext == UNCHANGED mvars
-MCSpec == MCInit /\ [][MCNext]_mvars
+          /\ target = 0
+MCNext == UNCHANGED <<mvars, target>>
+MCSpec == MCInit /\ [][MCNext]_<<mvars, target>>
 NoBad == bad = {}
 =============================================================================
